@@ -4,9 +4,9 @@
    the maps of the module (normalize_order_independent).
    The census is stated for the value-semantics path construction; Shape.v transfers it to the construction the
    CURRENT source uses. *)
-From Coq Require Import List NArith ZArith PArith Bool Lia Permutation.
+From Coq Require Import String List NArith ZArith PArith Bool Lia Permutation.
 Import ListNotations.
-Require Import Verif.Relmod.Model Verif.Relmod.StmtProps Verif.Relmod.Run Verif.Relmod.SortProps.
+Require Import Verif.Relmod.Model Verif.Relmod.StmtProps Verif.Relmod.Run Verif.Relmod.SortProps Verif.Relmod.PayloadProps.
 
 (* ---------- counting by class ---------- *)
 Definition ind (R R':relname) : nat := if relname_eqb R' R then 1 else 0.
@@ -53,8 +53,11 @@ Proof.
 Qed.
 
 (* ---------- the census: what each construct of the module contributes to relation R ---------- *)
+Definition has_srcs (l:list srcctx) : nat := match l with [] => 0 | _ :: _ => 1 end.
 Definition attrs_count (R:relname) (o:owner) (a:attrs) : nat :=
-  ind R (RTag o) * length (a_tags a) + ind R (RAnno o) * length (a_annos a).
+  ind R (RTag o) * length (a_tags a) + ind R (RAnno o) * length (a_annos a)
+  + ind R (RSrcAnno o) * list_sum (map (fun an => has_srcs (an_srcs an)) (a_annos a))
+  + ind R (RSrc o) * has_srcs (a_srcs a).
 
 Fixpoint census_stmt (R:relname) (st:stmt) : nat :=
   match st with
@@ -98,21 +101,48 @@ Definition census_app (R:relname) (ap:app) : nat :=
 Definition census (R:relname) (m:module) : nat := list_sum (map (census_app R) m).
 
 (* ---------- the rows meet the census ---------- *)
+Lemma list_sum_map_add {A} (f g:A -> nat) l : list_sum (map (fun x => f x + g x) l) = list_sum (map f l) + list_sum (map g l).
+Proof. induction l as [|x l IH]; [reflexivity|]. cbn [map]. rewrite !list_sum_cons, IH. lia. Qed.
+Lemma list_sum_map_const {A} (c:nat) (l:list A) : list_sum (map (fun _ => c) l) = c * length l.
+Proof. induction l as [|x l IH]; [cbn; lia|]. cbn [map length]. rewrite list_sum_cons, IH. lia. Qed.
+Lemma list_sum_map_mul {A} (c:nat) (f:A -> nat) l : list_sum (map (fun x => c * f x) l) = c * list_sum (map f l).
+Proof. induction l as [|x l IH]; [cbn; lia|]. cbn [map]. rewrite !list_sum_cons, IH. lia. Qed.
+
+(* the annotation rows of one attribute set: one Anno row each, one Src.Anno row for those with source contexts *)
+Lemma count_annos {B} (cls:B -> relname) R (f:anno -> list B) RA RS l :
+  (forall an, cnt cls R (f an) = ind R RA + ind R RS * has_srcs (an_srcs an)) ->
+  cnt cls R (concat (map f (sorted_by an_name l))) =
+  ind R RA * length l + ind R RS * list_sum (map (fun an => has_srcs (an_srcs an)) l).
+Proof.
+  intros H. rewrite cnt_concat_map, list_sum_map_sorted.
+  rewrite (list_sum_ext _ (fun an => ind R RA + ind R RS * has_srcs (an_srcs an))) by (intros; apply H).
+  rewrite list_sum_map_add, list_sum_map_const, list_sum_map_mul. reflexivity.
+Qed.
+
 Lemma count_meta R o a keys p zs at_ : rel_count R (meta o a keys p zs at_) = attrs_count R o at_.
 Proof.
-  unfold rel_count, meta, attrs_count. rewrite cnt_app, !cnt_map.
-  rewrite (cnt_const _ R (RTag o)) by reflexivity. rewrite (cnt_const _ R (RAnno o)) by reflexivity.
-  unfold sort_names. rewrite sorted_by_length. reflexivity.
+  unfold rel_count, meta, attrs_count. rewrite !cnt_app, cnt_map.
+  rewrite (cnt_const _ R (RTag o)) by reflexivity.
+  rewrite (count_annos r_rel R _ (RAnno o) (RSrcAnno o)).
+  - unfold src_rows. destruct (a_srcs at_); [rewrite cnt_nil|rewrite cnt_cons, cnt_nil]; cbn [has_srcs r_rel mkx]; lia.
+  - intros an. unfold anno_rows. rewrite cnt_cons. cbn [r_rel mkx].
+    destruct (an_srcs an); [rewrite cnt_nil|rewrite cnt_cons, cnt_nil]; cbn [has_srcs r_rel mkx]; lia.
 Qed.
 
 Definition item_rel (it:sitem (list N)) : relname :=
-  match it with IRow _ _ _ => RStmt | ITag _ _ => RTag OStmt | IAnno _ _ => RAnno OStmt end.
+  match it with
+  | IRow _ _ _ => RStmt | ITag _ _ => RTag OStmt | IAnno _ _ _ => RAnno OStmt
+  | ISrcAnno _ _ _ => RSrcAnno OStmt | ISrc _ _ _ => RSrc OStmt
+  end.
 
 Lemma count_smeta R p a : cnt item_rel R (smeta p a) = attrs_count R OStmt a.
 Proof.
-  unfold smeta, attrs_count. rewrite cnt_app, !cnt_map.
-  rewrite (cnt_const _ R (RTag OStmt)) by reflexivity. rewrite (cnt_const _ R (RAnno OStmt)) by reflexivity.
-  unfold sort_names. rewrite sorted_by_length. reflexivity.
+  unfold smeta, attrs_count. rewrite !cnt_app, cnt_map.
+  rewrite (cnt_const _ R (RTag OStmt)) by reflexivity.
+  rewrite (count_annos item_rel R _ (RAnno OStmt) (RSrcAnno OStmt)).
+  - unfold ssrc. destruct (a_srcs a); [rewrite cnt_nil|rewrite cnt_cons, cnt_nil]; cbn [has_srcs item_rel]; lia.
+  - intros an. unfold sanno. rewrite cnt_cons. cbn [item_rel].
+    destruct (an_srcs an); [rewrite cnt_nil|rewrite cnt_cons, cnt_nil]; cbn [has_srcs item_rel]; lia.
 Qed.
 
 Lemma count_path_items R st : forall idx, cnt item_rel R (path_items st idx) = census_stmt R st.
@@ -127,12 +157,12 @@ Proof.
     apply cnt_concat_mapi. eapply Forall_impl; [|exact Hch]. intros c Hc j. apply Hc.
 Qed.
 
-Lemma count_stmt_rows R a ep stmts :
-  rel_count R (map (item_row a ep) (ep_items_pure stmts)) = list_sum (map (census_stmt R) stmts).
+Lemma count_stmt_rows R g a sa ep stmts :
+  rel_count R (map (item_row g a sa ep) (ep_items_pure stmts)) = list_sum (map (census_stmt R) stmts).
 Proof.
   unfold rel_count. rewrite cnt_map.
-  assert (E : forall l, cnt (fun x => r_rel (item_row a ep x)) R l = cnt item_rel R l).
-  { intros l. unfold cnt. f_equal. apply filter_ext. intros [p c [t rt]|p t|p n]; reflexivity. }
+  assert (E : forall l, cnt (fun x => r_rel (item_row g a sa ep x)) R l = cnt item_rel R l).
+  { intros l. unfold cnt. f_equal. apply filter_ext. intros [p c [t rt]|p t|p n v|p n l0|p s0 l0]; reflexivity. }
   rewrite E. unfold ep_items_pure. apply cnt_concat_mapi.
   apply Forall_forall. intros s _ i. apply count_path_items.
 Qed.
@@ -151,7 +181,7 @@ Proof.
   apply Forall_forall. intros p _ i. apply count_param_rows.
 Qed.
 
-Lemma count_ep_rows R a e : rel_count R (ep_rows CopyParent CopyParent a e) = census_ep R e.
+Lemma count_ep_rows R g a sa e : rel_count R (ep_rows CopyParent CopyParent g a sa e) = census_ep R e.
 Proof.
   unfold ep_rows, census_ep. destruct (ep_skipped e); [reflexivity|]. destruct (e_pubsub e).
   - unfold rel_count. rewrite cnt_cons, cnt_app. cbn [r_rel mk mk2].
@@ -161,7 +191,7 @@ Proof.
   - unfold rel_count. rewrite cnt_cons, !cnt_app. cbn [r_rel mk mk2].
     fold (rel_count R (meta OEp a [e_name e] [] [] (e_attrs e))).
     fold (rel_count R (params_rows a (e_name e) n_empty (e_params e))).
-    fold (rel_count R (map (item_row a (e_name e)) (ep_items CopyParent CopyParent (e_stmts e)))).
+    fold (rel_count R (map (item_row g a sa (e_name e)) (ep_items CopyParent CopyParent (e_stmts e)))).
     rewrite count_meta, count_params_rows. cbn [ep_items]. rewrite count_stmt_rows.
     destruct (e_rest e) as [[[[mth pth] u] q]|].
     + rewrite cnt_app. fold (rel_count R (params_rows a (e_name e) n_path u)).
@@ -207,7 +237,7 @@ Proof.
   fold (rel_count R (meta OMixin a (fst m) [] [] (snd m))). rewrite count_meta. reflexivity.
 Qed.
 
-Lemma count_app_rows R ap : rel_count R (app_rows CopyParent CopyParent ap) = census_app R ap.
+Lemma count_app_rows R g ap : rel_count R (app_rows CopyParent CopyParent g ap) = census_app R ap.
 Proof.
   unfold app_rows, census_app, rel_count. rewrite cnt_cons, !cnt_app, !cnt_concat_map. cbn [r_rel mk mk2].
   fold (rel_count R (meta OApp (ap_name ap) [] [] [] (ap_attrs ap))). rewrite count_meta.
@@ -219,10 +249,10 @@ Proof.
 Qed.
 
 (* exactly one row per element, for every relation and every module *)
-Theorem census_exact_counts m rs :
-  normalize CopyParent CopyParent m = Rows rs -> forall R, rel_count R rs = census R m.
+Theorem census_exact_counts g m rs :
+  normalize CopyParent CopyParent g m = Rows rs -> forall R, rel_count R rs = census R m.
 Proof.
-  unfold normalize. destruct (module_bad m); [discriminate|]. intros [= <-] R.
+  unfold normalize. destruct (module_fault g m) as [[|]|]; [discriminate|discriminate|]. intros [= <-] R.
   unfold rel_count, census. rewrite cnt_concat_map. apply list_sum_ext. intros ap _. apply count_app_rows.
 Qed.
 
@@ -280,61 +310,129 @@ Proof.
 Qed.
 
 (* one App row per application *)
-Corollary one_row_per_app m rs : normalize CopyParent CopyParent m = Rows rs -> rel_count RApp rs = length m.
+Corollary one_row_per_app g m rs : normalize CopyParent CopyParent g m = Rows rs -> rel_count RApp rs = length m.
 Proof.
-  intros H. rewrite (census_exact_counts _ _ H). unfold census.
+  intros H. rewrite (census_exact_counts _ _ _ H). unfold census.
   rewrite (list_sum_ext _ (fun _ => 1)) by (intros; apply census_app_RApp).
   clear H. induction m as [|a m IH]; [reflexivity|]. cbn [map length]. rewrite list_sum_cons, IH. reflexivity.
 Qed.
 
 (* the Stmt relation of one endpoint has one row per visible statement (choices of an alt count, the alt itself
    does not: normalizeStatement emits no row for it) *)
-Corollary one_stmt_row_per_visible_statement a ep stmts :
-  rel_count RStmt (map (item_row a ep) (ep_items_pure stmts)) = list_sum (map visible_stmts stmts).
+Corollary one_stmt_row_per_visible_statement g a sa ep stmts :
+  rel_count RStmt (map (item_row g a sa ep) (ep_items_pure stmts)) = list_sum (map visible_stmts stmts).
 Proof. rewrite count_stmt_rows. apply list_sum_ext. intros s _. apply census_stmt_RStmt. Qed.
 
-(* ---------- refusal ---------- *)
-Inductive reaches_bad : stmt -> Prop :=
-| RB_leaf t a : reaches_bad (SLeaf (LRet PayBad) t a)
-| RB_block k t a body c : In c body -> reaches_bad c -> reaches_bad (SBlock k t a body)
-| RB_alt a chs ch c : In ch chs -> In c (snd ch) -> reaches_bad c -> reaches_bad (SAlt a chs).
+(* ---------- refusal and crash ---------- *)
+(* a statement reaches a return payload the payload reader does not accept *)
+Inductive reaches_bad (g:grammar) : stmt -> Prop :=
+| RB_leaf text t a : payload_fault g text <> None -> reaches_bad g (SLeaf (LRet text) t a)
+| RB_opaque t a : reaches_bad g (SLeaf (LRetOpaque true) t a)
+| RB_block k t a body c : In c body -> reaches_bad g c -> reaches_bad g (SBlock k t a body)
+| RB_alt a chs ch c : In ch chs -> In c (snd ch) -> reaches_bad g c -> reaches_bad g (SAlt a chs).
 
-Lemma stmt_bad_iff st : stmt_bad st = true <-> reaches_bad st.
+Lemma first_some_none {A} (l:list (option A)) : first_some l = None <-> forall x, In x l -> x = None.
 Proof.
-  induction st as [k t a|k t a body IH|a chs IH] using stmt_ind'; cbn [stmt_bad].
+  induction l as [|[y|] l IH]; cbn [first_some].
+  - split; [intros _ x []|reflexivity].
+  - split; [discriminate|]. intros H. exact (H _ (or_introl eq_refl)).
+  - rewrite IH. split; intros H x; [intros [<-|Hx]; [reflexivity|apply H, Hx]|intros Hx; apply H; right; exact Hx].
+Qed.
+Lemma first_some_some {A} (l:list (option A)) : first_some l <> None <-> exists x, In x l /\ x <> None.
+Proof.
+  split.
+  - intros H. induction l as [|[y|] l IH]; cbn [first_some] in H; [congruence| |].
+    + exists (Some y). split; [left; reflexivity|discriminate].
+    + destruct (IH H) as (x & Hx & Hn). exists x. split; [right; exact Hx|exact Hn].
+  - intros (x & Hx & Hn) E. rewrite first_some_none in E. exact (Hn (E x Hx)).
+Qed.
+Lemma first_some_in {A} (l:list (option A)) y : first_some l = Some y -> In (Some y) l.
+Proof. induction l as [|[z|] l IH]; cbn [first_some]; [discriminate|intros [= ->]; left; reflexivity|intros H; right; apply IH, H]. Qed.
+
+Lemma stmt_fault_iff g st : stmt_fault g st <> None <-> reaches_bad g st.
+Proof.
+  induction st as [k t a|k t a body IH|a chs IH] using stmt_ind'; cbn [stmt_fault].
   - split.
-    + destruct k as [| |[| |]|]; try discriminate. intros _. constructor.
-    + intros H. inversion H. reflexivity.
-  - rewrite existsb_exists. rewrite Forall_forall in IH. split.
-    + intros (c & Hc & Hb). econstructor; [exact Hc|]. apply IH; assumption.
-    + intros H. inversion H; subst. eexists; split; [eassumption|]. apply IH; assumption.
-  - rewrite existsb_exists. rewrite Forall_forall in IH. split.
-    + intros (ch & Hch & Hb0). apply existsb_exists in Hb0. destruct Hb0 as (c & Hc & Hb).
+    + destruct k as [| |text|[|]|]; try congruence; intros H; constructor; exact H.
+    + intros H. inversion H; subst; [assumption|discriminate].
+  - rewrite first_some_some. rewrite Forall_forall in IH. split.
+    + intros (x & Hx & Hn). apply in_map_iff in Hx. destruct Hx as (c & <- & Hc).
+      econstructor; [exact Hc|]. apply IH; assumption.
+    + intros H. inversion H; subst. eexists; split; [apply in_map; eassumption|]. apply IH; assumption.
+  - rewrite first_some_some. rewrite Forall_forall in IH. split.
+    + intros (x & Hx & Hn). apply in_map_iff in Hx. destruct Hx as (ch & <- & Hch).
+      apply first_some_some in Hn. destruct Hn as (y & Hy & Hn). apply in_map_iff in Hy. destruct Hy as (c & <- & Hc).
       specialize (IH ch Hch). cbn beta in IH. rewrite Forall_forall in IH.
       econstructor; [exact Hch|exact Hc|]. apply IH; assumption.
-    + intros H. inversion H; subst. eexists; split; [eassumption|]. apply existsb_exists.
-      eexists; split; [eassumption|].
-      match goal with Hch : In ?ch chs |- _ => specialize (IH ch Hch) end. cbn beta in IH.
-      rewrite Forall_forall in IH. apply IH; assumption.
+    + intros H. inversion H; subst.
+      match goal with Hch : In ?ch chs |- _ => exists (first_some (map (stmt_fault g) (snd ch))); split;
+        [apply (in_map (fun ch0 : name * list stmt => first_some (map (stmt_fault g) (snd ch0)))); exact Hch|];
+        specialize (IH ch Hch) end.
+      cbn beta in IH. rewrite Forall_forall in IH. apply first_some_some.
+      eexists; split; [apply in_map; eassumption|]. apply IH; assumption.
 Qed.
 
-(* Normalize refuses exactly when a statement of a visited endpoint (not "...", not a pubsub event) reaches a
-   return payload the payload grammar refuses; otherwise it answers with rows: there is no third outcome *)
-Theorem refused_iff cm am m :
-  normalize cm am m = Refused <->
-  exists ap e s, In ap m /\ In e (ap_eps ap) /\ ep_visits_stmts e = true /\ In s (e_stmts e) /\ reaches_bad s.
+Lemma module_fault_iff g m :
+  module_fault g m <> None <->
+  exists ap e s, In ap m /\ In e (ap_eps ap) /\ ep_visits_stmts e = true /\ In s (e_stmts e) /\ reaches_bad g s.
 Proof.
-  unfold normalize. destruct (module_bad m) eqn:Hb.
-  - split; [intros _|reflexivity]. unfold module_bad in Hb. apply existsb_exists in Hb.
-    destruct Hb as (ap & Hap & Hb1). apply existsb_exists in Hb1. destruct Hb1 as (e & He & Hb2).
-    apply andb_true_iff in Hb2. destruct Hb2 as [Hv Hb3]. apply existsb_exists in Hb3. destruct Hb3 as (s & Hs & Hb4).
-    exists ap, e, s. repeat split; try assumption. apply stmt_bad_iff, Hb4.
-  - split; [discriminate|]. intros (ap & e & s & Hap & He & Hv & Hs & Hr). exfalso.
-    assert (module_bad m = true); [|congruence].
-    unfold module_bad. apply existsb_exists. exists ap. split; [exact Hap|]. apply existsb_exists.
-    exists e. split; [exact He|]. rewrite Hv. cbn [andb]. apply existsb_exists. exists s. split; [exact Hs|].
-    apply stmt_bad_iff, Hr.
+  unfold module_fault. rewrite first_some_some. split.
+  - intros (x & Hx & Hn). apply in_map_iff in Hx. destruct Hx as (ap & <- & Hap).
+    unfold app_fault in Hn. apply first_some_some in Hn. destruct Hn as (y & Hy & Hn).
+    apply in_map_iff in Hy. destruct Hy as (e & <- & He). apply sorted_by_In in He.
+    unfold ep_fault in Hn. destruct (ep_visits_stmts e) eqn:Hv; [|congruence].
+    apply first_some_some in Hn. destruct Hn as (z & Hz & Hn). apply in_map_iff in Hz. destruct Hz as (s & <- & Hs).
+    exists ap, e, s. repeat split; try assumption. apply stmt_fault_iff, Hn.
+  - intros (ap & e & s & Hap & He & Hv & Hs & Hr).
+    exists (app_fault g ap). split; [apply in_map, Hap|]. unfold app_fault. apply first_some_some.
+    exists (ep_fault g e). split; [apply in_map, sorted_by_In, He|]. unfold ep_fault. rewrite Hv.
+    apply first_some_some. exists (stmt_fault g s). split; [apply in_map, Hs|]. apply stmt_fault_iff, Hr.
 Qed.
 
-Theorem normalize_total cm am m : normalize cm am m = Refused \/ exists rs, normalize cm am m = Rows rs.
-Proof. unfold normalize. destruct (module_bad m); [left; reflexivity|right; eexists; reflexivity]. Qed.
+(* Normalize gives no rows exactly when a statement of a visited endpoint (not "...", not a pubsub event) reaches a
+   return payload the payload reader does not accept; otherwise it answers with rows *)
+Theorem refused_iff cm am g m :
+  (normalize cm am g m = Refused \/ normalize cm am g m = Crashed) <->
+  exists ap e s, In ap m /\ In e (ap_eps ap) /\ ep_visits_stmts e = true /\ In s (e_stmts e) /\ reaches_bad g s.
+Proof.
+  rewrite <- module_fault_iff. unfold normalize. destruct (module_fault g m) as [[|]|].
+  - split; [discriminate|]. intros _. left; reflexivity.
+  - split; [discriminate|]. intros _. right; reflexivity.
+  - split; [intros [H|H]; discriminate|]. intros H. exfalso. apply H. reflexivity.
+Qed.
+
+Theorem normalize_total cm am g m :
+  normalize cm am g m = Refused \/ normalize cm am g m = Crashed \/ exists rs, normalize cm am g m = Rows rs.
+Proof. unfold normalize. destruct (module_fault g m) as [[|]|]; [left; reflexivity|right; left; reflexivity|right; right; eexists; reflexivity]. Qed.
+
+(* never a crash: when the code checks for a name given two values, no payload text whatsoever ends Normalize in a panic;
+   without the check one return statement does *)
+Lemma stmt_fault_no_crash g st : g_dup g <> DupPanics -> stmt_fault g st <> Some FCrash.
+Proof.
+  intros Hg. induction st as [k t a|k t a body IH|a chs IH] using stmt_ind'; cbn [stmt_fault].
+  - destruct k as [| |text|[|]|]; try discriminate. unfold payload_fault. destruct text; [discriminate|].
+    pose proof (parse_never_crashes g (n :: text) Hg) as H. destruct (parse_payload g (n :: text)); congruence.
+  - intros H. apply first_some_in, in_map_iff in H. destruct H as (c & Hc & Hin). rewrite Forall_forall in IH. exact (IH c Hin Hc).
+  - intros H. apply first_some_in, in_map_iff in H. destruct H as (ch & Hc & Hin).
+    apply first_some_in, in_map_iff in Hc. destruct Hc as (c & Hc & Hin2). rewrite Forall_forall in IH.
+    specialize (IH ch Hin). cbn beta in IH. rewrite Forall_forall in IH. exact (IH c Hin2 Hc).
+Qed.
+
+Theorem normalize_never_crashes cm am g m : g_dup g <> DupPanics -> normalize cm am g m <> Crashed.
+Proof.
+  intros Hg. unfold normalize. destruct (module_fault g m) as [[|]|] eqn:E; try discriminate. exfalso.
+  unfold module_fault in E. apply first_some_in, in_map_iff in E. destruct E as (ap & E & _).
+  unfold app_fault in E. apply first_some_in, in_map_iff in E. destruct E as (e & E & _).
+  unfold ep_fault in E. destruct (ep_visits_stmts e); [|discriminate].
+  apply first_some_in, in_map_iff in E. destruct E as (s & E & _). exact (stmt_fault_no_crash g s Hg E).
+Qed.
+
+Definition crash_module : module :=
+  [{| ap_name := [8%positive]; ap_sname := [[65%N]]; ap_long := 9%positive; ap_doc := 9%positive; ap_attrs := StmtProps.no_attrs;
+      ap_mixins := []; ap_types := []; ap_views := [];
+      ap_eps := [{| e_name := 12%positive; e_long := 9%positive; e_doc := 9%positive; e_pubsub := false; e_source := None;
+                    e_rest := None; e_params := []; e_attrs := StmtProps.no_attrs;
+                    e_stmts := [SLeaf (LRet (bytes "ok <: T [k=""1"", k=""2""]")) 9%positive StmtProps.no_attrs] |}] |}].
+Theorem normalize_never_crashes_refuted_for_unchecked_duplicates :
+  exists m, normalize CopyParent CopyParent grammar_before m = Crashed.
+Proof. exists crash_module. vm_compute. reflexivity. Qed.
